@@ -362,7 +362,9 @@ class Profile(HookHost):
         :param side: the side length of the hexagonal profile, must be > 0
         :param height: the height of the hexagonal profile when standing on the flat base, must be > 0
         :param diagonal: the diagonal length of the hexagonal profile (corner-to-corner distance)
-        :param corner_radius: the radius of the hexagon's corners, must be >= 0, <= diagonal / 2
+        :param corner_radius: the radius of the hexagon's corners, must be >= 0, <= side / 2.
+            Note, that side, height and diagonal are measured as if the corner radii were not present
+            for consistency with :py:meth:`square` and :py:meth:`box`.
         :param kwargs: additional keyword arguments to be passed to the Profile constructor
         :raises TypeError: on invalid argument combinations
         :raises ValueError: if arguments are out of range
@@ -641,7 +643,9 @@ class HexagonProfile(Profile):
         :param side: the side length of the hexagonal profile, must be > 0
         :param height: the height of the hexagonal profile when standing on the flat base, must be > 0
         :param diagonal: the diagonal length of the hexagonal profile (corner-to-corner distance)
-        :param corner_radius: the radius of the hexagon's corners, must be >= 0, <= diagonal / 2
+        :param corner_radius: the radius of the hexagon's corners, must be >= 0, <= side / 2.
+            Note, that side, height and diagonal are measured as if the corner radii were not present
+            for consistency with :py:meth:`square` and :py:meth:`box`.
         :param kwargs: additional keyword arguments to be passed to the Profile constructor
         :raises TypeError: on invalid argument combinations
         :raises ValueError: if arguments are out of range
@@ -652,7 +656,7 @@ class HexagonProfile(Profile):
             diagonal = side * 2
         elif diagonal is not None and side is None and height is None:
             side = diagonal / 2
-            height = side / np.sqrt(3)
+            height = side * np.sqrt(3)
         elif height is not None and side is None and diagonal is None:
             side = height / np.sqrt(3)
             diagonal = side * 2
@@ -677,7 +681,7 @@ class HexagonProfile(Profile):
                     (-1 / 2, -np.sqrt(3) / 2),
                 ]
             )
-            * (side, side)
+            * (side - corner_radius * 2 / np.sqrt(3))
         )
         polygon = Polygon(line)
         polygon = polygon.buffer(corner_radius)
